@@ -18,7 +18,7 @@ class CallMixin(object):
     SPEC_FORMS = {"forall", "exists", "old", "let"}
     SPEC_FUNCS = {"isinf", "isnan", "is_int", "abs", "min", "max", "len", "finite", "implies", "iff", "ite", "fresh",
                   "floor", "trunc", "has", "get", "real", "allocated_before", "same", "sqrt", "arr", "add_rtp", "add_rtn",
-                  "sub_rtp", "sub_rtn", "exact_add", "exact_sub", "rn_add", "rn_sub", "pow", "glob", "next_up", "next_down"}
+                  "sub_rtp", "sub_rtn", "exact_add", "exact_sub", "rn_add", "rn_sub", "pow", "glob", "obj", "next_up", "next_down"}
 
     # ------------------------------------------------------------------ dispatch
     def call_value(self, f, args, kwargs, spec, node=None):
@@ -204,8 +204,11 @@ class CallMixin(object):
             for exc, cond in raise_conds.items():
                 if ctx.branch(cond):
                     raise RaiseSig(ExcV(exc))
-            self.havoc_modifies(c.modifies)
+            new_refs = self.havoc_modifies(c.modifies)
             old_wm = ctx.bump_wm_unknown() if c.allocates else ctx.wm_now()
+            for nv in new_refs or []:
+                # a reference written by the callee points to an object that exists when the callee returns
+                ctx.assume_ref_typed(nv)
             rty = self.return_type(c, f)
             result = None
             if rty is not None and rty.kind != "none":
@@ -215,9 +218,37 @@ class CallMixin(object):
                         ctx.assume(z3.And(result.term >= old_wm, result.term < ctx.wm_now()))
             self.old_heap_stack.append(old_heap)
             self.fresh_base_stack.append(old_wm)
+            # the callee's random draws (ghost={"draws": [kinds]}) become draws of the caller, in call order
+            extra = {"result": result}
+            for k, kind in enumerate(c.ghost.get("draws", [])):
+                t = ctx.fresh(kind, z3.IntSort() if kind in ("choice", "randint") else ctx.num.sort)
+                ctx.draws.append((kind, t))
+                extra["draw%d" % k] = t
             try:
+                if result is not None and rty.kind in ("float", "int"):
+                    # ``result == <expression>``: the expression itself is the result (no fresh name + equation), so
+                    # that the caller's terms stay syntactically aligned with specification terms
+                    for e in c.ensures:
+                        node = ast.parse(e.strip(), mode="eval").body
+                        if isinstance(node, ast.Compare) and len(node.ops) == 1 and isinstance(node.ops[0], ast.Eq) \
+                                and isinstance(node.left, ast.Name) and node.left.id == "result" \
+                                and not any(isinstance(x, ast.Name) and x.id == "result" for x in ast.walk(node.comparators[0])):
+                            saved_env = self.spec_env
+                            self.spec_env = dict(saved_env)
+                            self.spec_env.update(extra)
+                            try:
+                                v = self.ev(node.comparators[0], True)
+                            finally:
+                                self.spec_env = saved_env
+                            if is_z3(v) or isinstance(v, (int, float)):
+                                defined = ctx.to_float(v) if rty.kind == "float" else self.Z(v)
+                                if rty.kind == "float":
+                                    ctx.assume(ctx.num.typing_assumption(defined))
+                                result = defined
+                                extra["result"] = result
+                            break
                 for e in c.ensures:
-                    ctx.assume(self.eval_clause(e, {"result": result}))
+                    ctx.assume(self.eval_clause(e, extra))
             finally:
                 self.old_heap_stack.pop()
                 self.fresh_base_stack.pop()
@@ -281,16 +312,38 @@ class CallMixin(object):
             for v in vs:
                 guard.append(z3.And(lo <= v, v < hi))
         saved = dict(self.frame.env)
+        if len(node.args) == 3 and len(names) == 1 and z3.is_int_value(z3.simplify(lo)) and z3.is_int_value(z3.simplify(hi)) \
+                and z3.simplify(hi).as_long() - z3.simplify(lo).as_long() <= 8:
+            # a small constant range: the quantifier is a finite conjunction / disjunction
+            parts = []
+            try:
+                for k in range(z3.simplify(lo).as_long(), z3.simplify(hi).as_long()):
+                    self.frame.env[names[0]] = k
+                    b = self.as_bool_term(self.ev(lam.body, True))
+                    parts.append(z3.BoolVal(b) if isinstance(b, bool) else b)
+            finally:
+                self.frame.env.clear()
+                self.frame.env.update(saved)
+            return z3.And(*parts) if Q is z3.ForAll else z3.Or(*parts)
         self.frame.env.update(dict(zip(names, vs)))
+        pats = []
+        self.quant_depth = getattr(self, "quant_depth", 0) + 1
         try:
             body = self.as_bool_term(self.ev(lam.body, True))
+            for kw in node.keywords:
+                # trigger=lambda n: (t1, t2): instantiate only where ground terms match ALL of t1, t2 (stops matching loops)
+                if kw.arg == "trigger":
+                    ts = self.ev(kw.value.body, True)
+                    ts = ts if isinstance(ts, tuple) else (ts,)
+                    pats = [z3.MultiPattern(*[self.Z(t) for t in ts])] if len(ts) > 1 else [self.Z(ts[0])]
         finally:
+            self.quant_depth -= 1
             self.frame.env.clear()
             self.frame.env.update(saved)
         if isinstance(body, bool):
             body = z3.BoolVal(body)
         if Q is z3.ForAll:
-            return z3.ForAll(vs, z3.Implies(z3.And(*guard), body) if guard else body)
+            return z3.ForAll(vs, z3.Implies(z3.And(*guard), body) if guard else body, patterns=pats)
         return z3.Exists(vs, z3.And(*(guard + [body])))
 
     def spec_old(self, node):
@@ -317,9 +370,10 @@ class CallMixin(object):
     def spec_let(self, node):
         # let(lambda x: body, value)
         lam = node.args[0]
-        v = self.ev(node.args[1], True)
+        vs = [self.ev(a, True) for a in node.args[1:]]
         saved = dict(self.frame.env)
-        self.frame.env[lam.args.args[0].arg] = v
+        for a, v in zip(lam.args.args, vs):
+            self.frame.env[a.arg] = v
         try:
             return self.ev(lam.body, True)
         finally:
@@ -411,6 +465,10 @@ class CallMixin(object):
         if name == "glob":
             # glob("pkg.module", "name"): a module global of another module (declared with module_global)
             return self.lookup_global(loader.load_module(args[0]), args[1])
+        if name == "obj":
+            # obj(n, "Class"): the integer n read as a reference to an object of the class (quantification over objects)
+            from .core import parse_type
+            return RefV(self.Z(args[0]), parse_type(args[1]))
         if name == "arr":
             v = args[0]
             return ArrV(ctx.list_arr(v, v.ty.base.args[0]), v.ty.base.args[0])
@@ -488,7 +546,7 @@ class CallMixin(object):
                 raise RaiseSig(ExcV("KeyError"))
         v = ctx.wrap(z3.Select(z3.Select(val, d.term), K), vt)
         if not spec and isinstance(v, RefV):
-            ctx.assume_ref_typed(v)
+            ctx.assume_ref_typed(v, vk)
         return v
 
     def dict_set(self, d, k, v):
